@@ -116,6 +116,10 @@ class Sym:
                 for n, fe in e[3]:
                     if n == name or n == str(p[1]):
                         return fe
+            if e[0] == "variant" and e[1][0] == "agg" and e[1][2] == e[2]:
+                for n, fe in e[1][3]:
+                    if n == name or n == str(p[1]):
+                        return fe
             return ("field", e, name, adt)
         if k == "d":
             return ("variant", e, p[1])
@@ -268,7 +272,7 @@ class Sym:
                                 val = args[0]
                                 break
                     if val is None:
-                        val = ("call", key, args)
+                        val = simplify_call(key, args)
                 else:
                     cal = None
                     key = "<fnptr>"
@@ -365,6 +369,14 @@ class Sym:
                     b = nb
                     continue
                 is_disc = d[0] == "disc"
+                if is_disc and d[1][0] == "agg" and d[1][2] is not None:
+                    # the scrutinee was built on this path: its variant is known
+                    nb = other
+                    for vv, tt in zip(vals, tgts):
+                        if self._variant_name(d[2], vv) == d[1][2]:
+                            nb = tt
+                    b = nb
+                    continue
                 atom = d
                 branches = []  # (value label, target)
                 for vv, tt in zip(vals, tgts):
@@ -440,6 +452,31 @@ class Sym:
 
 
 _NEG_BIN = {"Ne": "Eq", "Le": "Gt", "Ge": "Lt"}
+
+
+_OPTION = "std::option::Option"
+
+
+def simplify_call(key, args):
+    """Value of a call; a few std accessors applied to an Option/Result built on the same path are
+    evaluated (this is what makes a helper returning `Some(x)` / `None` transparent once inlined)."""
+    if args and args[0][0] == "agg" and args[0][1] in (_OPTION, "std::result::Result") and args[0][2] is not None:
+        a = args[0]
+        var = a[2]
+        payload = a[3][0][1] if a[3] else None
+        name = key.rsplit("::", 1)[1]
+        some = var in ("Some", "Ok")
+        if name in ("unwrap", "expect", "unwrap_or_default", "unwrap_or", "unwrap_or_else", "unwrap_unchecked") and some and payload is not None:
+            return payload
+        if name == "unwrap_or" and not some and len(args) > 1:
+            return args[1]
+        if name == "unwrap_or_default" and not some:
+            return ("default",)
+        if name in ("is_some", "is_ok"):
+            return ("const", some)
+        if name in ("is_none", "is_err"):
+            return ("const", not some)
+    return ("call", key, args)
 
 
 def _walk_expr(e):
